@@ -2189,7 +2189,8 @@ rfbProcessExtendedServerCutTextData(rfbClientPtr cl, uint32_t flags, const char 
         stream.avail_out = size;
         stream.next_out = (unsigned char *)buf;
         err = inflate(&stream, Z_NO_FLUSH);
-        if (err != Z_OK && err != Z_STREAM_END) {
+        if ((err != Z_OK && err != Z_STREAM_END) || stream.avail_out != 0) {
+            /* also refuse a record whose size field promises more than the stream holds */
             rfbLogPerror("rfbProcessExtendedServerCutTextData: zlib inflation error");
             free(buf);
             inflateEnd(&stream);
